@@ -592,7 +592,7 @@ Record response := { rp_status : N; rp_errored : bool; rp_body : bytes; rp_redir
 Record client := { k_buf : bytes; k_pst : qst; k_waited : bool; k_queued : N;
                    k_cutoff : bool; k_closed : bool; k_status : N; k_body : bytes;
                    k_evented : bool; k_nredir : N; k_responses : list response;
-                   k_method : cmethod }.   (* respondent.method: Parsent.reinit() without method resets it to GET *)
+                   k_method : cmethod }.   (* respondent.method, set by respondent.reinit(method=requester.method) at every transmit *)
 
 Record cconf := { cf_method : cmethod; cf_redirectable : bool; cf_dictable : bool;
                   cf_sse_long : bool; cf_json : jmap }.
@@ -629,7 +629,7 @@ Definition client_ended (cf : cconf) (o : url_oracle) (n : net_oracle) (k : clie
           Ok {| k_buf := buf; k_pst := QStart true; k_waited := true; k_queued := queued;
                 k_cutoff := cut; k_closed := closed; k_status := 0; k_body := body;
                 k_evented := false; k_nredir := k_nredir k + 1; k_responses := k_responses k;
-                k_method := MGet |}
+                k_method := cf_method cf |}   (* redirect() re-sends with the redirected request's method *)
         end
       else deliver errored
   end.
